@@ -189,9 +189,9 @@ def parse_valid(d, text):
 
 
 class Bench(object):
-    def __init__(self, ctx, d):
+    def __init__(self, ctx, d, dirname='policies'):
         self.ctx = ctx
-        self.dir = os.path.join(d, 'policies')
+        self.dir = os.path.join(d, dirname)
         os.makedirs(self.dir)
         self.scratch = d
         self.store = rig.default_policies()
@@ -361,10 +361,16 @@ def run_case(ctx, case):
             for rep in range(8):
                 sub = os.path.join(d, 'r%d' % rep)
                 os.makedirs(sub)
-                b = Bench(ctx, sub)
+                # the directory and the files are whatever the administrator called them: names with characters that mean
+                # something to a shell or a pattern matcher, names starting with a dot
+                dirname = rng.choice(('policies', 'policies', 'policies [site-a]', 'pol*icies', 'pol?icy', '.policies', 'policies.d', '{a,b}'))
+                files_ = rng.choice((FILES, FILES, ['.a.json', 'b.json', 'c.json'], ['a[1].json', 'b b.json', 'c.json'],
+                                     ['a.json', '.b.json', '..c.json'], ['*.json', 'b?.json', 'c.json.json']))
+                b = Bench(ctx, sub, dirname)
+                ctx.cell('names', dirname, '+'.join(files_))
                 for step in range(25):
                     for _ in range(rng.choice((1, 1, 1, 2, 3))):
-                        f = rng.choice(FILES)
+                        f = rng.choice(files_)
                         if rng.random() < 0.25:
                             b.remove(f)
                         else:
